@@ -1,0 +1,117 @@
+/**
+ * Verification trace hooks: JSON rendering of the index-valued fields of the
+ * interrogate database records, as they are at the moment of the call.  Only
+ * used by VERIF_EVENT() lines; compiled to nothing unless
+ * INTERROGATE_VERIF_TRACE is defined.
+ */
+
+#ifndef VERIF_IDB_JSON_H
+#define VERIF_IDB_JSON_H
+
+#include "verif_trace.h"
+
+#ifdef INTERROGATE_VERIF_TRACE
+
+#include "interrogateType.h"
+#include "interrogateFunction.h"
+#include "interrogateFunctionWrapper.h"
+#include "interrogateElement.h"
+#include "interrogateManifest.h"
+#include "interrogateMakeSeq.h"
+
+namespace verif_idb {
+
+// Every field is rendered as an array of indices, a scalar field as an array
+// of one.
+template<class Rec, class Count, class Get>
+inline std::string vec(const Rec &rec, Count count, Get get) {
+  std::ostringstream out;
+  out << "[";
+  int n = (rec.*count)();
+  for (int i = 0; i < n; ++i) {
+    out << (i ? "," : "") << (rec.*get)(i);
+  }
+  out << "]";
+  return out.str();
+}
+
+inline std::string type_json(const InterrogateType &t) {
+  std::ostringstream out;
+  out << "\"fd\":" << (t.is_fully_defined() ? 1 : 0)
+      << ",\"gl\":" << (t.is_global() ? 1 : 0)
+      << ",\"r\":{\"outer\":[" << t.get_outer_class()
+      << "],\"wrapped\":[" << t.get_wrapped_type()
+      << "],\"dtor\":[" << t.get_destructor()
+      << "],\"ctors\":" << vec(t, &InterrogateType::number_of_constructors, &InterrogateType::get_constructor)
+      << ",\"methods\":" << vec(t, &InterrogateType::number_of_methods, &InterrogateType::get_method)
+      << ",\"elems\":" << vec(t, &InterrogateType::number_of_elements, &InterrogateType::get_element)
+      << ",\"mseqs\":" << vec(t, &InterrogateType::number_of_make_seqs, &InterrogateType::get_make_seq)
+      << ",\"casts\":" << vec(t, &InterrogateType::number_of_casts, &InterrogateType::get_cast)
+      << ",\"nested\":" << vec(t, &InterrogateType::number_of_nested_types, &InterrogateType::get_nested_type)
+      << ",\"bases\":" << vec(t, &InterrogateType::number_of_derivations, &InterrogateType::get_derivation)
+      << ",\"ups\":" << vec(t, &InterrogateType::number_of_derivations, &InterrogateType::derivation_get_upcast)
+      << ",\"downs\":" << vec(t, &InterrogateType::number_of_derivations, &InterrogateType::derivation_get_downcast)
+      << "}";
+  return out.str();
+}
+
+inline std::string function_json(const InterrogateFunction &f) {
+  std::ostringstream out;
+  out << "\"fd\":1,\"gl\":" << (f.is_global() ? 1 : 0)
+      << ",\"r\":{\"cls\":[" << f.get_class()
+      << "],\"cw\":" << vec(f, &InterrogateFunction::number_of_c_wrappers, &InterrogateFunction::get_c_wrapper)
+      << ",\"pw\":" << vec(f, &InterrogateFunction::number_of_python_wrappers, &InterrogateFunction::get_python_wrapper)
+      << "}";
+  return out.str();
+}
+
+inline std::string wrapper_json(const InterrogateFunctionWrapper &w) {
+  std::ostringstream out;
+  out << "\"fd\":1,\"gl\":0"
+      << ",\"r\":{\"fn\":[" << w.get_function()
+      << "],\"ret\":[" << w.get_return_type()
+      << "],\"rvd\":[" << w.get_return_value_destructor()
+      << "],\"ps\":" << vec(w, &InterrogateFunctionWrapper::number_of_parameters, &InterrogateFunctionWrapper::parameter_get_type)
+      << "}";
+  return out.str();
+}
+
+inline std::string element_json(const InterrogateElement &e) {
+  std::ostringstream out;
+  out << "\"fd\":1,\"gl\":" << (e.is_global() ? 1 : 0)
+      << ",\"r\":{\"type\":[" << e.get_type()
+      << "],\"getter\":[" << e.get_getter()
+      << "],\"setter\":[" << e.get_setter()
+      << "],\"has\":[" << e.get_has_function()
+      << "],\"clear\":[" << e.get_clear_function()
+      << "],\"del\":[" << e.get_del_function()
+      << "],\"ins\":[" << e.get_insert_function()
+      << "],\"getkey\":[" << e.get_getkey_function()
+      << "],\"len\":[" << e.get_length_function()
+      << "]}";
+  return out.str();
+}
+
+inline std::string manifest_json(const InterrogateManifest &m) {
+  std::ostringstream out;
+  out << "\"fd\":1,\"gl\":1"
+      << ",\"r\":{\"type\":[" << m.get_type()
+      << "],\"getter\":[" << m.get_getter()
+      << "]}";
+  return out.str();
+}
+
+inline std::string make_seq_json(const InterrogateMakeSeq &s) {
+  std::ostringstream out;
+  out << "\"fd\":1,\"gl\":0"
+      << ",\"r\":{\"lenf\":[" << s.get_length_getter()
+      << "],\"elemf\":[" << s.get_element_getter()
+      << "]}";
+  return out.str();
+}
+
+} // namespace verif_idb
+
+#endif  // INTERROGATE_VERIF_TRACE
+
+#endif  // VERIF_IDB_JSON_H
